@@ -459,12 +459,16 @@ _dispatch_transform_from_utf16(dispatch_data_t data, int32_t byteOrder)
 				if (range == NULL) {
 					return (bool)false;
 				}
-				ch = _dispatch_transform_swap_to_host(*(const uint16_t *)p,
-						byteOrder);
+				uint16_t raw;
+				memcpy(&raw, p, sizeof(raw)); // the mapping may be unaligned
+				ch = _dispatch_transform_swap_to_host(raw, byteOrder);
 				dispatch_release(range);
 				skip += 1;
 			} else {
-				ch =  _dispatch_transform_swap_to_host(src[i], byteOrder);
+				uint16_t raw;
+				// src is odd-aligned after an odd number of skipped bytes
+				memcpy(&raw, (const uint8_t *)src + i * 2, sizeof(raw));
+				ch = _dispatch_transform_swap_to_host(raw, byteOrder);
 			}
 
 			if (ch == 0xfffe && offset == 0 && i == 0) {
@@ -488,13 +492,16 @@ _dispatch_transform_from_utf16(dispatch_data_t data, int32_t byteOrder)
 					if (range == NULL) {
 						return (bool)false;
 					}
-					ch = _dispatch_transform_swap_to_host(*(uint16_t *)p,
-							byteOrder);
+					uint16_t raw;
+					memcpy(&raw, p, sizeof(raw)); // may be unaligned
+					ch = _dispatch_transform_swap_to_host(raw, byteOrder);
 					dispatch_release(range);
 					// bytes of the following region(s) consumed so far
 					skip = (i * 2 + 2) - size;
 				} else {
-					ch = _dispatch_transform_swap_to_host(src[i], byteOrder);
+					uint16_t raw;
+					memcpy(&raw, (const uint8_t *)src + i * 2, sizeof(raw));
+					ch = _dispatch_transform_swap_to_host(raw, byteOrder);
 				}
 				if (!((ch >= 0xdc00) && (ch <= 0xdfff))) {
 					return (bool)false;
